@@ -38,10 +38,19 @@ theorem exEnv_wf : WF exEnv := by
   | zero => simp [exEnv] at h; subst h; decide
   | succ n => simp [exEnv] at h
 
-/-- the state of `exAtRatio` after the liquidation market (only) has lost its price and the begin blocker
-    has lowered its status flag -/
-def exLiqDown : St := { exAtRatio with price := upd exAtRatio.price 1 none, status := upd exAtRatio.status 1 false }
+/-- `exAtRatio` after a further deposit of 30 (CR 300 %), with the liquidation market (only) having lost its
+    price and its status flag lowered by the begin blocker — the state of former finding F12 -/
+def exLiqDownDeposited : St :=
+  let s := apply exEnv exAtRatio (.deposit 100 3 3 0 3000000000 2)
+  { s with price := upd s.price 1 none, status := upd s.status 1 false }
 
+/-- the state of former finding F2: user 3 opens 10 units / 10.000003 usdx at price 2.0, user 4 deposits the
+    same 10 units (two equal deposits, odd debt), then both prices crash to 0.001 -/
+def exTwoDeposits : St :=
+  let s0 : St := { exGenesis with price := fun _ => some ⟨2000000000000000000⟩ }
+  let s1 := apply exEnv s0 (.create 100 3 0 1000000000 2 10000003 0)
+  let s2 := apply exEnv s1 (.deposit 100 3 4 0 1000000000 2)
+  { s2 with price := fun _ => some ⟨1000000000000000⟩ }
 
 /-- the history used for non-vacuity: create at the ratio, third-party deposit, draw, a block, partial repay,
     withdraw by the third party -/
